@@ -79,19 +79,27 @@ def run(ctx, chk):
 
     R1 = chk.rule("S1-LINE", "disas_instruction renders `<%id = >Op<name><  %type ><operands>`: format holes in the order result id, opcode "
                   "name (class.opname), result type, space, operands; `%id = ` present iff the instruction has a result id")
-    f = ctx.rspirv.fn(DIS, "disas_instruction")
+    from . import disx
     W = raw.where("disas_instruction", None, "disassemble.rs")
-    fs, args = fmt_args(f["body"])
-    a = [show(x) for x in args]
-    good = fs == "{0}Op{1}{2}{3}{4}" and len(a) == 5 and a[0].startswith("inst.result_id.map_or(String::new(), |w|") and '"%{0} = "' in a[0] \
-        and a[1] == "inst.class.opname" and a[2].startswith("inst.result_type.map_or(String::new(), |w|") and '"  %{0}{1}"' in a[2] \
-        and a[3] == "space" and a[4] == "disas_operands(&inst.operands)"
-    chk.check(R1, good, "disas_instruction:format", "format %r with arguments %s" % (fs, [x[:70] for x in a]), W, sample={"format": fs})
-    fi = ctx.rspirv.fn(DIS, "disassemble", "Instruction", "Disassemble")
-    t = [show_stmt(s) for s in fi["body"][1]]
-    good = len(t) == 2 and t[0] == 'let space = if !self.operands.is_empty() { " " } else { "" };' and \
-        t[1] == 'disas_instruction(self, space, |operands| disas_join(operands, " "))'
-    chk.check(R1, good, "Instruction::disassemble", "is %s" % t, raw.where("disassemble", "Instruction", "disassemble.rs"))
+    for rid in (True, False):
+        for rtype in (True, False):
+            inst = "disas_instruction(result id %s, result type %s)" % ("present" if rid else "absent", "present" if rtype else "absent")
+            try:
+                got = disx.line_format(ctx, rid, rtype)
+            except Anchor as ex:
+                chk.bad(R1, inst, "not analysable: %s" % ex, W, key="C07:line-shape")
+                continue
+            want = disx.expected_line(rid, rtype)
+            chk.check(R1, got == want, inst, "line is rendered as %s, expected %s" % (got, want), W, key="C07:line:%s:%s" % (rid, rtype), sample=str(got) if rid and rtype else None)
+    for n in (0, 1, 3):
+        inst = "Instruction::disassemble(%d operands)" % n
+        try:
+            r, ops = disx.inst_disassemble(ctx, n)
+            want = ("instr", ("inst",), ("str", " " if n else ""), ("joined", ("list", ops), ("str", " ")))
+            chk.check(R1, r == want, inst, "renders %s, expected all %d operands joined by a space after a%s separator" % (str(r)[:200], n, " one-space" if n else "n empty"),
+                      raw.where("disassemble", "Instruction", "disassemble.rs"))
+        except Anchor as ex:
+            chk.bad(R1, inst, "not analysable: %s" % ex, raw.where("disassemble", "Instruction", "disassemble.rs"))
     fj = ctx.rspirv.fn(DIS, "disas_join")
     tj = [show_stmt(s) for s in fj["body"][1]]
     chk.check(R1, tj == ["insts.iter().map(|i| i.disassemble()).collect::<Vec<String>>().join(delimiter)"] or
@@ -222,11 +230,26 @@ def run(ctx, chk):
 
     R6 = chk.rule("S5-EXTINST", "OpExtInst in a block is rendered as set id, the extended instruction's name when the set was imported as "
                   "GLSL.std.450 / OpenCL.std (looked up in that set's table), then every remaining operand")
-    fe = ctx.rspirv.fn(DIS, "disas_ext_inst")
-    te = show(fe["body"])
-    ok = "let mut operands = vec![inst.operands[0].disassemble(), grammar.opname.to_string()];" in te and \
-        "for operand in &inst.operands[2..] { operands.push(operand.disassemble()) }" in te and 'disas_instruction(inst, " ", |_| operands.join(" "))' in te
-    chk.check(R6, ok, "disas_ext_inst:all-operands", "disas_ext_inst is %s" % te[:400], raw.where("disas_ext_inst", None, "disassemble.rs"), key="C07:extinst")
+    WE = raw.where("disas_ext_inst", None, "disassemble.rs")
+    ecases = [(["IdRef", "LiteralExtInstInteger"], True, True), (["IdRef", "LiteralExtInstInteger", "IdRef"], True, True),
+              (["IdRef", "LiteralExtInstInteger", "IdRef", "IdRef", "LiteralBit32", "IdRef"], True, True),
+              (["IdRef", "LiteralExtInstInteger", "IdRef"], False, True), (["IdRef", "LiteralExtInstInteger", "IdRef"], True, False),
+              ([], True, True), (["IdRef"], True, True), (["LiteralBit32", "LiteralExtInstInteger", "IdRef"], True, True),
+              (["IdRef", "IdRef", "IdRef"], True, True)]
+    for kinds, have, resolved in ecases:
+        inst = "disas_ext_inst(%s, set %s, number %s)" % (kinds, "known" if have else "unknown", "known" if resolved else "unknown")
+        try:
+            r, ops = disx.ext_inst(ctx, kinds, have, resolved)
+        except Anchor as ex:
+            chk.bad(R6, inst, "not analysable: %s" % ex, WE, key="C07:extinst-shape")
+            continue
+        named = len(kinds) >= 2 and kinds[0] == "IdRef" and kinds[1] == "LiteralExtInstInteger" and have and resolved
+        if named:
+            items = [("dis", ops[0]), ("sym", "EXTNAME")] + [("dis", o) for o in ops[2:]]
+            want = ("instr", ("inst",), ("str", " "), ("join", items, ("str", " ")))
+        else:
+            want = ("generic",)
+        chk.check(R6, r == want, inst, "renders %s, expected %s" % (str(r)[:260], str(want)[:200]), WE, key="C07:extinst")
     from . import extx
     WT_ = raw.where("track", "ExtInstSetTracker")
     for name, opcode, rid, ops, want in extx.track_cases():
@@ -304,12 +327,16 @@ def module_walk(fm):
                     ev.append("end-for bb")
                 elif re.match(r"^&\w+\.instructions$", src):
                     ev.append("for inst in bb.instructions")
-                    body = show(e[3])
-                    if re.search(r"match \w+\.class\.opcode \{ spirv::Op::ExtInst => ", body) and "disas_ext_inst(%s, &ext_inst_set_tracker)" % var in body \
-                            and re.search(r"_ => .*%s\.disassemble\(\)" % var, body):
+                    ps = sites(e[3], lambda n: n[0] == "mcall" and n[2] == "push")
+                    ext = [(show(n), c) for n, c in ps if "disas_ext_inst(%s, &ext_inst_set_tracker)" % var in show(n)]
+                    gen = [(show(n), c) for n, c in ps if "%s.disassemble()" % var in show(n) and "disas_ext_inst" not in show(n)]
+                    pos = lambda c: any(x.endswith("matches spirv::Op::ExtInst") or x == "((%s.class.opcode == spirv::Op::ExtInst))" % var or x == "(%s.class.opcode == spirv::Op::ExtInst)" % var for x in c)
+                    neg = lambda c: any(x.endswith("matches _") or x.startswith("!((%s.class.opcode == spirv::Op::ExtInst" % var) or x.startswith("!(%s.class.opcode == spirv::Op::ExtInst" % var) or
+                                        x == "((%s.class.opcode != spirv::Op::ExtInst))" % var for x in c)
+                    if len(ps) == 2 and len(ext) == 1 and len(gen) == 1 and pos(ext[0][1]) and neg(gen[0][1]):
                         ev.append("inst")
                     else:
-                        ev.append("inst?" + body[:80])
+                        ev.append("inst?" + str([(t[:50], c) for t, c in ext + gen])[:160])
                     ev.append("end-for inst")
                 elif "ext_inst_imports" in src or "types_global_values" in src:
                     continue
